@@ -354,12 +354,12 @@ def step(state, event):
 
     def rec_i(methodname, namespace, response_params_rqd=None, **params):
         rec.append(('imethod', methodname, namespace,
-                    {k: v for k, v in params.items()
-                     if v is not None and k not in ('has_return_value', 'has_out_params')}))
+                    copy.deepcopy({k: v for k, v in params.items()
+                                   if v is not None and k not in ('has_return_value', 'has_out_params')})))
         return orig_i(methodname, namespace, response_params_rqd=response_params_rqd, **params)
 
     def rec_m(methodname, objectname, Params=None, **params):
-        rec.append(('method', methodname, objectname, Params, params))
+        rec.append(('method', methodname, copy.deepcopy(objectname), copy.deepcopy(Params), copy.deepcopy(params)))
         return orig_m(methodname, objectname, Params, **params)
     M._imethodcall, M._methodcall = rec_i, rec_m
     try:
@@ -371,6 +371,7 @@ def step(state, event):
     X, _ = transport.connect(fac, default_namespace=state.default_ns, use_pull_operations=True
                              if op.startswith('Iter') else None)
     M.use_pull_operations  # noqa  (M keeps its own default)
+    ctx_x_before = state.ctx_x
     out_x = _outcome(lambda: _call(X, op, _args_for(state.ctx_x, args)))
     reached = bool(fac.log)
     # remember sessions
@@ -394,6 +395,18 @@ def step(state, event):
         d = compare_seen(rec, fac.log)
         if d:
             return 'server-saw', op_family(op) + ':' + str(d[0]), d[1], d[2], reached
+        # independent of the direct path: the harness' own DSP0200 marshalling rules
+        try:
+            exp_view = expected_server_view(op, args, state.default_ns, ctx_x_before)
+        except (ValueError, TypeError, AttributeError):
+            exp_view = None
+        d = compare_server_view(exp_view, fac.log)
+        if d:
+            return 'server-view', op_family(op) + ':' + str(d[0]), d[1], d[2], reached
+        if out_x[0] == 'ok':
+            d = completion_rule(op, args, state.default_ns, out_x[1])
+            if d:
+                return 'completion', op_family(op) + ':' + str(d[0]), d[1], d[2], reached
     # --- (3) repositories stay equal
     if not may_change_state(op):
         return None, None, None, None, reached
@@ -474,6 +487,114 @@ def _plain(v):
         return list(v)
     return v
 
+
+
+# ------------------------------------------------------------------------------------------
+# independent reference for marshalling: what the server must see for a call (DSP0200 + the
+# operation docstrings), computed from the caller's arguments by the harness alone
+
+OBJ_PARAMS = ('ClassName', 'InstanceName', 'ObjectName')
+CLASSNAME_PARAMS = ('ClassName', 'AssocClass', 'ResultClass')
+
+
+def expected_server_view(op, args, default_ns, ctx):
+    """-> (methodname, namespace, {param: value}) or None when the harness has no rule"""
+    if op.startswith('Iter') or op in ('InvokeMethod', 'ExportIndication'):
+        return None
+    a = {}
+    for k, v in args.items():
+        a[k] = tuple(ctx) if v == ['session'] and ctx else (None if v == ['session'] else D.build(v))
+    ns = a.pop('namespace', None)
+    params = {}
+    if 'context' in a:
+        c = a.pop('context')
+        if not (isinstance(c, tuple) and len(c) == 2):
+            return None
+        ns = c[1]
+        params['EnumerationContext'] = c[0]
+    for name in OBJ_PARAMS:
+        o = a.get(name)
+        if ns is None and isinstance(o, (pywbem.CIMClassName, pywbem.CIMInstanceName)) and o.namespace is not None:
+            ns = o.namespace
+    for name in ('NewInstance', 'ModifiedInstance'):
+        o = a.get(name)
+        if ns is None and o is not None and o.path is not None and o.path.namespace is not None:
+            ns = o.path.namespace
+    if ns is None:
+        ns = default_ns
+    ns = ns.strip('/')
+    for k, v in a.items():
+        if v is None:
+            continue
+        if k in CLASSNAME_PARAMS or (k == 'ObjectName' and not isinstance(v, pywbem.CIMInstanceName)):
+            cn = v.classname if isinstance(v, pywbem.CIMClassName) else v
+            v = pywbem.CIMClassName(cn)
+        elif isinstance(v, pywbem.CIMInstanceName):
+            v = v.copy()
+            v.namespace = None
+            v.host = None
+        elif k == 'PropertyList':
+            v = [v] if isinstance(v, str) else list(v)
+        elif k == 'NewInstance':
+            v = v.copy()
+            v.path = None
+        elif k == 'ModifiedInstance':
+            v = v.copy()
+            v.path = v.path.copy()
+            v.path.namespace = None
+            v.path.host = None
+        elif k in ('NewClass', 'ModifiedClass'):
+            v = v.copy()
+            v.path = None
+        params[k] = v
+    return op, ns, params
+
+
+def compare_server_view(expected, log):
+    if expected is None or len(log) != 1:
+        return None
+    kind, name, ns, params = log[0]
+    if kind != 'imethod':
+        return None
+    if name != expected[0]:
+        return 'methodname', expected[0], name
+    if ns != expected[1]:
+        return 'namespace', expected[1], ns
+    pe = {k: norm(dump(v)) for k, v in expected[2].items()}
+    px = {k: norm(dump(v)) for k, v in params.items()}
+    if set(pe) != set(px):
+        return 'param-names', sorted(pe), sorted(px)
+    for k in sorted(pe):
+        d = diff(pe[k], px[k])
+        if d:
+            return 'param:' + k + ':' + path_class(d[0]), d[1], d[2]
+    return None
+
+
+def completion_rule(op, args, default_ns, result):
+    """documented completion of results on the client side, checked on the X side: the returned
+    paths name the effective target namespace"""
+    exp = expected_server_view(op, args, default_ns, None) if not any(v == ['session'] for v in args.values()) else None
+    if exp is None:
+        return None
+    ns = exp[1]
+    objs = []
+    if op in ('GetInstance',):
+        objs = [result.path]
+    elif op in ('EnumerateInstances',):
+        objs = [i.path for i in result]
+    elif op in ('EnumerateInstanceNames',):
+        objs = list(result)
+    elif op == 'CreateInstance':
+        objs = [result]
+    elif op in ('OpenEnumerateInstances',):
+        objs = [i.path for i in result.instances]
+    elif op in ('OpenEnumerateInstancePaths',):
+        objs = list(result.paths)
+    for p in objs:
+        if p is None or p.namespace is None or p.namespace.lower() != ns.lower():
+            return 'result-path-namespace', ns, None if p is None else p.namespace
+    return None
 
 # ------------------------------------------------------------------------------------------
 # exploration
